@@ -155,6 +155,18 @@ func domains() []domain {
 	add("chanless-iface-of-int", struct{ I interface{} }{}, func(r *vmon.Rng) interface{} {
 		return struct{ I interface{} }{pick(r, 1, 2, "a", nil, S{1, "a", nil})}
 	})
+	// a struct of exported fields one of which is an interface: values of different dynamic types that print alike or
+	// are equally "true" are different values
+	add("struct with interface field", Attr{}, func(r *vmon.Rng) interface{} {
+		return Attr{"k", pick(r, 1, 1, int64(1), 1.0, true, "1", uint8(1), nil, 0, false, "", "true", float32(1), Level(1), int64(1))}
+	})
+	add("struct with two interface fields", Pair{}, func(r *vmon.Rng) interface{} {
+		return Pair{pick(r, 1, int64(1), "1", nil), pick(r, true, 1, nil, "true")}
+	})
+	// structures that reach themselves through pointers
+	add("ring pointer", (*Ring)(nil), func(r *vmon.Rng) interface{} { return pick(r, ringA, ringB, ring2, ringC, (*Ring)(nil), ringA) })
+	add("ring struct", Ring{}, func(r *vmon.Rng) interface{} { return pick(r, *ringA, *ringB, *ring2, *ringC, Ring{}, Ring{V: 1}) })
+	add("tree with parent pointers", (*Tree)(nil), func(r *vmon.Rng) interface{} { return pick(r, treeA, treeB, treeC, treeA.Kids[0], treeB.Kids[0]) })
 	ds = append(ds, domain{name: "func", typ: reflect.TypeOf(f1), isFunc: true, gen: func(r *vmon.Rng) interface{} {
 		return pick(r, f1, f2, f1, (func())(nil))
 	}})
@@ -274,6 +286,45 @@ func (l Level) String() string {
 type Celsius float64
 
 func (c Celsius) String() string { return fmt.Sprintf("%.1f°C", float64(c)) }
+
+type Attr struct {
+	K string
+	V interface{}
+}
+type Pair struct{ A, B interface{} }
+
+// Ring and Tree have exported fields only and reach themselves through pointers
+type Ring struct {
+	V    int
+	Next *Ring
+}
+type Tree struct {
+	Name   string
+	Parent *Tree
+	Kids   []*Tree
+}
+
+func mkRing(vs ...int) *Ring {
+	first := &Ring{V: vs[0]}
+	cur := first
+	for _, v := range vs[1:] {
+		cur.Next = &Ring{V: v}
+		cur = cur.Next
+	}
+	cur.Next = first
+	return first
+}
+
+func mkTree(root string, kids ...string) *Tree {
+	t := &Tree{Name: root}
+	for _, k := range kids {
+		t.Kids = append(t.Kids, &Tree{Name: k, Parent: t})
+	}
+	return t
+}
+
+var ringA, ringB, ring2, ringC = mkRing(1), mkRing(1), mkRing(1, 1), mkRing(1, 2)
+var treeA, treeB, treeC = mkTree("r", "a", "b"), mkTree("r", "a", "b"), mkTree("r", "a", "c")
 
 var sliceBase = []int{1, 2, 3, 4}
 
